@@ -13,6 +13,12 @@ CHECKS = {
             'forced and real (>=0xff00 / >=0xffff) extended numbering) is compared with the model that produced the bytes.',
             'Trusted: the writer vf/enc/elf.py (refereed against readelf), the vendored glibc/LLVM registries for code names, Hypothesis.',
             'DESIGN.md 4/C01'),
+    'C02': ('Hypothesis-generated ELF models + boundary sweeps; oracles: file slice / independent zlib framing / NUL scan / PT_LOAD containment / transcription of binutils ELF_SECTION_IN_SEGMENT_STRICT over a geometry decision table',
+            'Exploration: section data (raw, NOBITS, SHF_COMPRESSED with consistent and inconsistent Elf_Chdr), string lookups across the 64-byte '
+            'read chunk and at EOF, segment data and interpreter strings, address_offsets on boundary ranges, and section_in_segment over a '
+            'decision table of segment type x section type x flags x size x file/address relation (sampled in quick, complete in thorough) plus random geometry.',
+            'Trusted: writer vf/enc/elf.py, zlib as reference inflater, my transcription of the binutils 2.40 macro (vf/ref/insegment.py, refereed against readelf -lW).',
+            'DESIGN.md 4/C02'),
     'C16': ('exhaustive enumeration of short encodings + Hypothesis random encodings against an independent arithmetic decoder',
             'Exploration: every LEB128 prefix up to 2 (quick) / 3 (thorough) bytes and (thorough) all 2^24 24-bit values are enumerated '
             'completely; longer encodings, fixed-width integers, strings, blocks and initial lengths are covered by boundary sweeps and '
